@@ -210,3 +210,130 @@ Proof.
       * exfalso. subst ps. rewrite N.eqb_refl in E2. cbn [andb] in E2.
         replace (se + 3 - se) with 3 in E2 by lia. rewrite (three_bytes s se 58 47 46 S4 P2 P3) in E2. discriminate.
 Qed.
+
+(* ---------- D. after "//" : userinfo, host, port, path ---------- *)
+(* the serialization in front of "//" is "scheme:" *)
+Definition scheme_pre_ok (se : N) (ser0 : list N) : Prop :=
+  1 <= se /\ (exists c, nnth ser0 0 = Some c /\ is_alpha c = true)
+  /\ forallb scheme_char (nfirstn se ser0) = true /\ nnth ser0 se = Some 58 /\ nlen ser0 = se + 1.
+
+Lemma css_of_bytes s i : nnth s i = Some 58 -> nnth s (i + 1) = Some 47 -> nnth s (i + 2) = Some 47 ->
+  starts_with s_css (nskipn i s) = true.
+Proof.
+  intros H1 H2 H3. rewrite (nskipn_cons_of_nnth _ _ _ H1), (nskipn_cons_of_nnth _ _ _ H2).
+  replace (i + 2) with (i + 1 + 1) in H3 by lia. rewrite (nskipn_cons_of_nnth _ _ _ H3). reflexivity.
+Qed.
+
+Lemma hi_none_empty h : hi_of_host h = HI_None -> h = HDomain [].
+Proof. destruct h as [[|c d]|a|p]; cbn; intros H; try discriminate; reflexivity. Qed.
+
+Section Ads.
+Variable hp hpo : list N -> result host.
+Variable hd : host -> list N.
+Hypothesis HW : HostWf hp hpo hd.
+
+Lemma auth_front_ok se ser0 x ue h pt s3 :
+  scheme_pre_ok se ser0 ->
+  let A := ser0 ++ [47; 47] in
+  let ser1 := A ++ x in
+  ((x = [] /\ ue = nlen A)
+   \/ (nlen A <= ue /\ nnth ser1 ue = Some 58 /\ ue + 2 <= nlen ser1 /\ nnth ser1 (nlen ser1 - 1) = Some 64)
+   \/ (nlen A <= ue /\ nnth ser1 ue = Some 64 /\ nlen ser1 = ue + 1)) ->
+  match pt with Some p => p <= 65535 | None => True end ->
+  ((h = HDomain [] /\ hd h = [] /\ pt = None) \/ host_disp_ok (hd h)) ->
+  let ser2 := ser1 ++ hd h ++ ptext pt in
+  agree_pre (nlen ser2) ser2 s3 -> nlen ser2 <= nlen s3 ->
+  (nlen s3 = nlen ser2 \/ nnth s3 (nlen ser2) = Some 47) ->
+  forallb no_qh (nskipn (nlen ser2) s3) = true ->
+  front_ok (mkUrl s3 se ue (nlen ser1) (nlen ser1 + nlen (hd h)) (hi_of_host h) pt (nlen ser2) None None).
+Proof using HW.
+  intros (S1 & (c0 & Sc & Sa) & S3 & S4 & S5) A ser1 U P Hh ser2 Hpre Hlen Hps Hq.
+  assert (nlen A = se + 3) as LA by (subst A; rewrite nlen_app, S5; change (nlen [47; 47]) with 2; lia).
+  assert (nlen ser1 = se + 3 + nlen x) as L1 by (subst ser1; rewrite nlen_app, LA; reflexivity).
+  assert (nlen ser2 = nlen ser1 + nlen (hd h) + nlen (ptext pt)) as L2 by (subst ser2; rewrite !nlen_app; lia).
+  (* bytes of the new serialization in front of the path are those of ser2 *)
+  assert (forall i, i < nlen ser2 -> nnth s3 i = nnth ser2 i) as Hb by (intros i Hi; apply (pre_nnth _ _ _ _ Hpre Hi)).
+  assert (forall i, i < nlen ser1 -> nnth ser2 i = nnth ser1 i) as Hb1 by (intros i Hi; subst ser2; apply nnth_app_lt; exact Hi).
+  assert (forall i, i < nlen A -> nnth ser1 i = nnth A i) as HbA by (intros i Hi; subst ser1; apply nnth_app_lt; exact Hi).
+  assert (forall i, i < nlen ser0 -> nnth A i = nnth ser0 i) as Hb0 by (intros i Hi; subst A; apply nnth_app_lt; exact Hi).
+  assert (forall i, i < se + 1 -> nnth s3 i = nnth ser0 i) as HbS.
+  { intros i Hi. rewrite Hb, Hb1, HbA, Hb0 by lia. reflexivity. }
+  assert (nnth s3 (se + 1) = Some 47 /\ nnth s3 (se + 2) = Some 47) as [B1 B2].
+  { rewrite !Hb, !Hb1, !HbA by lia. subst A. rewrite !nnth_app_ge by lia. rewrite S5.
+    replace (se + 1 - (se + 1)) with 0 by lia. replace (se + 2 - (se + 1)) with 1 by lia. split; reflexivity. }
+  assert (ue <> nlen ser1 -> ue < nlen ser1) as Hue.
+  { intros Hne. destruct U as [(-> & ->)|[(U1 & U2 & U3 & U4)|(U1 & U2 & U3)]]; [|lia|lia].
+    exfalso. apply Hne. subst ser1. rewrite app_nil_r. reflexivity. }
+  unfold front_ok. urec. split; [|split; [exact Hlen|split; [exact Hq|]]].
+  - (* scheme *)
+    unfold scheme_ok. urec. split; [exact S1|]. split; [|split].
+    + exists c0. split; [|exact Sa]. rewrite HbS by lia. exact Sc.
+    + rewrite (pre_firstn _ _ _ se Hpre) by lia. subst ser2 ser1 A. rewrite <- !app_assoc.
+      rewrite nfirstn_app_le by lia. exact S3.
+    + apply byte_eqb_true_iff. rewrite HbS by lia. exact S4.
+  - left. split; [|split].
+    + unfold has_authority_b. urec. apply css_of_bytes; [rewrite HbS by lia; exact S4 | exact B1 | exact B2].
+    + unfold auth_ok. urec.
+      split; [destruct U as [(_ & ->)|[(U1 & _)|(U1 & _)]]; lia|].
+      split; [destruct U as [(-> & ->)|[(U1 & U2 & U3 & U4)|(U1 & U2 & U3)]]; [subst ser1; rewrite app_nil_r|..]; lia|].
+      split; [lia|]. split; [lia|]. split; [exact Hlen|]. split; [|split].
+      * (* userinfo *)
+        unfold userinfo_ok. urec.
+        destruct U as [(Ex & Eu)|[(U1 & U2 & U3 & U4)|(U1 & U2 & U3)]].
+        -- left. assert (ue = nlen ser1) as E by (subst ser1 x; rewrite app_nil_r; exact Eu).
+           split; [exact E|]. split; [lia|].
+           destruct Hh as [(_ & Eh & ->)|(Hne & H58 & _)].
+           ++ assert (nlen ser2 = ue) as E2 by (rewrite L2, Eh; cbn [ptext]; rewrite nlen_nil; lia).
+              rewrite E2 in Hps. destruct Hps as [Hps|Hps]; [apply byte_eqb_oob; lia|].
+              apply byte_eqb_false_of. congruence.
+           ++ destruct (hd h) as [|c t] eqn:Ehd; [contradiction|].
+              apply byte_eqb_false_of. rewrite Hb by (rewrite L2, nlen_cons; lia).
+              subst ser2. rewrite E. rewrite nnth_app_ge by lia. rewrite N.sub_diag. cbn [app].
+              change (nnth (c :: t ++ ptext pt) 0) with (Some c). cbn in H58. congruence.
+        -- right. left. split; [|split; [lia|]]; apply byte_eqb_true_iff.
+           ++ rewrite Hb, Hb1 by lia. exact U2.
+           ++ rewrite Hb, Hb1 by lia. exact U4.
+        -- right. right. split; [|lia]. apply byte_eqb_true_iff. rewrite Hb, Hb1 by lia. exact U2.
+      * intros Hn. apply hi_none_empty in Hn. subst h.
+        destruct Hh as [(_ & Eh & _)|(Hne & _)]; [rewrite Eh, nlen_nil; lia|].
+        destruct HW as (_ & _ & W3). rewrite W3 in Hne. contradiction.
+      * unfold port_ok. urec. destruct pt as [p|]; cbn [ptext] in *; [|rewrite nlen_nil in L2; lia].
+        rewrite nlen_cons in L2.
+        assert (ser2 = ((ser1 ++ hd h) ++ [58]) ++ decimal p) as E2 by (subst ser2; rewrite <- !app_assoc; reflexivity).
+        split; [|split; [lia|split; [exact P|]]].
+        -- apply byte_eqb_true_iff. rewrite Hb by lia. rewrite E2, <- app_assoc. cbn [app].
+           rewrite <- nlen_app. apply byte_eqb_true_iff. apply byte_eqb_app.
+        -- rewrite (pre_piece _ _ _ _ _ Hpre) by lia. rewrite E2.
+           replace (nlen ser1 + nlen (hd h) + 1) with (nlen ((ser1 ++ hd h) ++ [58])) by (rewrite !nlen_app; reflexivity).
+           rewrite nskipn_app_len. apply nfirstn_all. rewrite <- E2, L2, !nlen_app. change (nlen [58]) with 1. lia.
+    + destruct Hps as [Hps|Hps]; [left; lia | right; exact Hps].
+Qed.
+
+Theorem ads_wf dbg ovr st se ser0 l u : st_is_file st = false -> scheme_pre_ok se ser0 ->
+  after_double_slash dbg hp hpo hd ovr CUrlParser st se ser0 l = POk u -> wf_b u = true.
+Proof using HW.
+  intros Hnf Hs. unfold after_double_slash.
+  destruct (parse_userinfo st (ser0 ++ [47; 47]) l) as [[[ser1 ue] rm]| |] eqn:Eu; cbn [pbind]; try discriminate.
+  destruct (parse_userinfo_shape _ _ _ _ _ _ Eu) as (x & -> & U).
+  du32 (nlen ((ser0 ++ [47; 47]) ++ x)) hs Ehs. apply to_u32_inv in Ehs. destruct Ehs as [-> _].
+  destruct (parse_host_and_port hp hpo hd CUrlParser st se ((ser0 ++ [47; 47]) ++ x) rm)
+    as [[[[[ser2 he] hi] pt] rm2]| |] eqn:Eh; cbn [pbind]; try discriminate.
+  destruct (phap_shape hp hpo hd HW _ _ _ _ _ _ _ _ _ Hnf Eh) as (h & -> & -> & -> & Hp & Hh).
+  match goal with |- (if ?c then _ else _) = _ -> _ => destruct c; [discriminate|] end.
+  du32 (nlen (((ser0 ++ [47; 47]) ++ x) ++ hd h ++ ptext pt)) ps Eps. apply to_u32_inv in Eps. destruct Eps as [-> _].
+  destruct (parse_path_start dbg CUrlParser st true (((ser0 ++ [47; 47]) ++ x) ++ hd h ++ ptext pt) rm2)
+    as [[[s3 hh] rm3]| |] eqn:Ep; cbn [pbind]; try discriminate.
+  assert (st_is_special st = true -> ends_with_byte 47 (((ser0 ++ [47; 47]) ++ x) ++ hd h ++ ptext pt) = false) as He.
+  { intros Esp. destruct Hh as [(_ & _ & _ & Hns)|(Hne & _ & H47)]; [congruence|].
+    destruct pt as [p|]; cbn [ptext].
+    - rewrite app_assoc. apply port_text_last.
+    - rewrite app_nil_r. rewrite ends_with_byte_app by exact Hne. exact H47. }
+  destruct (parse_path_start_shape dbg st true _ rm2 s3 hh rm3 Hnf He Ep) as (A & B & C & D & E).
+  intros H.
+  apply (wqf_wf ovr st (mkUrl s3 se ue (nlen ((ser0 ++ [47; 47]) ++ x)) (nlen ((ser0 ++ [47; 47]) ++ x) + nlen (hd h))
+                           (hi_of_host h) pt (nlen (((ser0 ++ [47; 47]) ++ x) ++ hd h ++ ptext pt)) None None) rm3 u);
+    [|reflexivity|reflexivity|exact H].
+  apply auth_front_ok; try assumption.
+  destruct Hh as [(H1 & H2 & H3 & _)|Hh]; [left; repeat split; assumption | right; exact Hh].
+Qed.
+End Ads.
